@@ -58,6 +58,9 @@ func main() {
 		os.Exit(checks.C14Gen())
 	}
 	if os.Args[1] == "replay" {
+		for id, c := range registry {
+			checks.GenericChecks[id] = c.fn
+		}
 		os.Exit(checks.Replay(os.Args[2]))
 	}
 	c, ok := registry[os.Args[1]]
